@@ -1,1 +1,74 @@
-fn main(){}
+//! lzsim-mt: the multi-threaded readers and writers under a seeded scheduler. The `lz_mt`
+//! instance takes Mutex/Condvar/mpsc/atomics/thread from shuttle (hook H1), `SimScheduler`
+//! decides who runs at every synchronisation point.
+
+use lz_mt as lz;
+use simcore::case::Case;
+use simcore::orch::{Engine, PropMeta};
+use simcore::run::RunResult;
+
+#[global_allocator]
+static ALLOC: simcore::alloc::SimAlloc = simcore::alloc::SimAlloc;
+
+#[path = "../../scen/codec.rs"]
+mod codec;
+#[path = "../../scen/common.rs"]
+mod common;
+mod mtscen;
+mod sched;
+
+struct Mt;
+
+fn tier() -> &'static str {
+    if std::env::var("VERIF_TIER").map(|t| t == "thorough").unwrap_or(false) {
+        "thorough"
+    } else {
+        "quick"
+    }
+}
+
+impl Engine for Mt {
+    fn name(&self) -> &'static str {
+        "lzsim-mt"
+    }
+
+    fn properties(&self) -> Vec<&'static str> {
+        vec!["C08", "C09", "C10"]
+    }
+
+    fn plan(&self, prop: &str, tier: &str) -> Vec<(String, u64)> {
+        let t = tier == "thorough";
+        let p = |s: &str, q: u64, th: u64| (s.to_string(), if t { th } else { q });
+        match prop {
+            "C08" => vec![p("mt.equiv", 12000, 1_500_000)],
+            "C09" => vec![p("mt.fault", 16000, 1_500_000)],
+            "C10" => vec![p("mt.drop", 24000, 2_000_000)],
+            "C13" => vec![p("mt.determ", 10000, 500_000)],
+            _ => vec![],
+        }
+    }
+
+    fn gen(&self, prop: &str, scen: &str, k: u64, seed: u64) -> Case {
+        mtscen::gen(prop, scen, k, seed, tier())
+    }
+
+    fn exec(&self, case: &Case, keep_log: bool) -> RunResult {
+        mtscen::exec(case, keep_log)
+    }
+
+    fn meta(&self, prop: &str) -> PropMeta {
+        let real = vec!["all of /repo/src (lz_mt instance: default features, cfg lzma_rust2_verif + lzma_rust2_verif_shuttle): coordinator and worker code of LZMA2ReaderMT, LZMA2WriterMT, LZIPReaderMT, LZIPWriterMT, WorkStealingQueue, set_error; single-threaded readers/writers of the same instance as reference"];
+        let stubs = vec!["shuttle's Mutex/Condvar/mpsc/atomics/thread in place of std's (all atomics behave SeqCst)", "SimScheduler (seeded random / PCT / round-robin / replay) in place of the OS scheduler", "SimSource / SimSink in place of the caller's Read+Seek / Write"];
+        let common = "one run = one case (format, options, worker count, input of 0..12 units, caller operation history, fault) executed once under one schedule drawn from the run's seed (10% round-robin, 50% uniform random, 40% PCT depth 1-3); ";
+        match prop {
+            "C08" => PropMeta { level: "exploration", rule: format!("{common}writer role: MT writer -> single-threaded decode and MT decode must give the input and every unit but the last has the configured size; reader role: streams of dependent chunks / independent units / trailing bytes / empty members -> MT reader output equals the single-threaded reader's, unit counts equal the parser's. Non-trivial: more than one unit of input or reader role; distinct = distinct event-log digests (includes the scheduler decision hash)."), assumptions: vec!["weak-memory reorderings are not explored (shuttle treats atomics as SeqCst)".into()], real, stubs, exhaustive_part: None },
+            "C09" => PropMeta { level: "exploration", rule: format!("{common}one fault per run: reader role - truncation to 0 bytes, missing terminator/last byte, truncation at a random fraction, bit flip or byte substitution at a random fraction, persistent source error at call j, seek error; writer role - persistent sink error at write call j, flush error, Ok(0) from the sink. Oracle: the run ends (no deadlock = no runnable task while the caller is blocked; no step-budget overrun), the result is Err whenever the single-threaded reader fails on the same bytes or the injected I/O fault fired, never Ok with other or fewer bytes. Non-trivial: every run."), assumptions: vec!["step budget 30000 + 600 per caller operation + 200 per KiB; fault-free runs use a small fraction".into(), "weak-memory reorderings are not explored".into()], real, stubs, exhaustive_part: None },
+            "C10" => PropMeta { level: "exploration", rule: format!("{common}the reader or writer is dropped after d caller operations (d = 0..11, 0 = right after new), or after finish / end of stream, or after an injected error. Oracle: drop returns, afterwards every spawned task runs to completion (a task left blocked is reported by the scheduler as a leak), and the census hook never sees more live workers than clamp(requested, 1, 256) (requested in {{0,1,2,3,4,8,300}}). Non-trivial: every run."), assumptions: vec!["a worker blocked forever under the simulated scheduler is a leaked OS thread in the real build".into()], real, stubs, exhaustive_part: None },
+            _ => PropMeta { level: "exploration", rule: common.into(), assumptions: vec![], real, stubs, exhaustive_part: None },
+        }
+    }
+}
+
+fn main() {
+    simcore::orch::main(&Mt)
+}
